@@ -200,7 +200,7 @@ fn prepare(c: &BrCase, c10: bool) -> Option<Prep> {
 // ------------------------------------------------------------------------------------------
 // a trailing "+" = the same instruction with one extra byte appended to its data (Anchor ignores
 // trailing bytes, so it dispatches identically; validators that compare whole data would not)
-pub const C10_SYMS: &[&str] = &["cb", "sA", "sV", "eA", "eV", "wA", "rA", "bA", "dA", "irW", "kr", "js", "sd", "un", "fsA", "feA", "p:sA", "p:eA", "p:wA", "p:rA", "wBig", "sA+", "sV+", "eA+", "eA0"];
+pub const C10_SYMS: &[&str] = &["cb", "sA", "sV", "eA", "eV", "wA", "rA", "bA", "dA", "irW", "kr", "js", "sd", "un", "fsA", "feA", "p:sA", "p:eA", "p:wA", "p:rA", "wBig", "sA+", "sV+", "eA+", "eA0", "sA1", "sA2"];
 // "feV&A" = end for account V with account U appended as a trailing (ignored) remaining account;
 // "feA0" / "feA1" = a genuine end for U whose observation accounts are missing altogether / lack the borrowed bank
 // (the risk engine cannot be built: the end must fail, never pass unchecked)
@@ -244,6 +244,27 @@ fn build_ix(p: &Prep, sym: &str) -> Instruction {
     match sym {
         "cb" => foreign_ix(noop_ids()[0], vec![2, 0, 0, 0, 0]),
         "sA" => w.ix_start_liquidation(ua, p.l.auth),
+        // a genuine start for U whose observation accounts lack the collateral bank (the account would look worse
+        // than it is): must fail, never take control of an account on a partial picture
+        "sA1" => {
+            let mut ix = w.ix_start_liquidation(ua, p.l.auth);
+            let ckey = w.banks[ab].key;
+            let glen = w.risk_metas_for_bank(&ckey).len();
+            if let Some(pos) = ix.accounts.iter().rposition(|m| m.pubkey == ckey) {
+                ix.accounts.drain(pos..(pos + glen).min(ix.accounts.len()));
+            }
+            ix
+        }
+        // ... or present the debt bank's group in the collateral bank's place
+        "sA2" => {
+            let mut ix = w.ix_start_liquidation(ua, p.l.auth);
+            let ckey = w.banks[ab].key;
+            let glen = w.risk_metas_for_bank(&ckey).len();
+            if let Some(pos) = ix.accounts.iter().rposition(|m| m.pubkey == ckey) {
+                ix.accounts.splice(pos..(pos + glen).min(ix.accounts.len()), w.risk_metas_for_bank(&w.banks[lb].key));
+            }
+            ix
+        }
         "sV" => w.ix_start_liquidation(va, p.l.auth),
         "eA" => w.ix_end_liquidation(ua, p.l.auth, w.risk_metas(&ua, None, None)),
         "eV" => w.ix_end_liquidation(va, p.l.auth, w.risk_metas(&va, None, None)),
@@ -350,7 +371,7 @@ fn in_c10_language(shape: &[&str]) -> bool {
     while i < shape.len() && is_pre(shape[i]) {
         i += 1;
     }
-    if i >= shape.len() || !(shape[i] == "sA" || shape[i] == "sA+") {
+    if i >= shape.len() || !(shape[i] == "sA" || shape[i] == "sA+" || shape[i] == "sA1" || shape[i] == "sA2") {
         return false;
     }
     if !matches!(*shape.last().unwrap(), "eA" | "eA+" | "eA0") {
@@ -729,8 +750,8 @@ pub fn run_case(c: &BrCase, c10: bool, stats: &mut Stats, shard: Option<(usize, 
     Ok(())
 }
 
-const RULE_C10: &str = "per generated world (2 banks; generated decimals, token programs, weights, oracles; a borrower steered to a generated maintenance health, mostly liquidatable, sometimes healthy; liquidation records created): EXHAUSTIVE enumeration of all transaction shapes up to the stated length over the 24-symbol alphabet (incl. trailing-byte variants of start/end) {compute-budget, start(U), start(V), end(U), end(V), withdraw(U) by third party, big withdraw, repay(U), borrow(U), deposit(U), init-record, kamino-refresh (whitelisted), allowed-program swap, short-data ix, unknown-program ix, flash start/end, and start/end/withdraw/repay via CPI from an allow-listed proxy program} plus random longer shapes; every shape executed as one atomic transaction through the real entry point. Commit-time oracle: no receivership flag / receiver survives; if a third party controlled the account then the shape is in the language written from the statement (start first after compute/whitelisted, end last, only withdraw/repay/record-init between, allowed programs, no CPI), the account was not healthy, health not worse, not ended healthy and premium <= max(fee,5%) unless equity < $5 (definite breaches on enclosures, under both price readings). Non-trivial = committed transactions in which a third party controlled the account; distinct by (shape, world hash).";
-const RULE_C11: &str = "per generated world (account normal / frozen / disabled-by-transfer): EXHAUSTIVE enumeration of all transaction shapes up to the stated length over the 28-symbol alphabet (incl. an end for another account that merely lists U, and a trailing-byte end) {flash start naming end index 0,1,2,3,4,9 and 65536+0, 65536+1, 2^32+1 (aliases of 0 / 1 under 16- / 32-bit narrowing); end(U); end(V); big borrow (unhealthy); small borrow; big withdraw; deposit; repay_all; classic liquidate(U); bankruptcy(U); start_liquidation(U); end_liquidation(U); transfer(U); close(U); start/end/borrow via CPI; compute-budget} plus random longer shapes, each executed atomically. Oracle: per executed instruction — a start that set the flag named a later end(U) of this program, was top-level, on an unflagged account, not nested; liquidation/bankruptcy/start_liquidation never succeed on a flagged account; at commit — no flash-loan flag survives, and if an action inside left the account initially unhealthy (reference model) then an end(U) follows and the account is not unhealthy at commit. Non-trivial = committed transactions containing a borrow/withdraw that skipped the health check.";
+const RULE_C10: &str = "per generated world (2 banks; generated decimals, token programs, weights, oracles; a borrower steered to a generated maintenance health, mostly liquidatable, sometimes healthy; liquidation records created): EXHAUSTIVE enumeration of all transaction shapes up to the stated length over the 27-symbol alphabet (incl. trailing-byte variants of start/end, a start whose observation accounts lack the collateral bank and an end without observation accounts) {compute-budget, start(U), start(V), end(U), end(V), withdraw(U) by third party, big withdraw, repay(U), borrow(U), deposit(U), init-record, kamino-refresh (whitelisted), allowed-program swap, short-data ix, unknown-program ix, flash start/end, and start/end/withdraw/repay via CPI from an allow-listed proxy program} plus random longer shapes; every shape executed as one atomic transaction through the real entry point. Commit-time oracle: no receivership flag / receiver survives; if a third party controlled the account then the shape is in the language written from the statement (start first after compute/whitelisted, end last, only withdraw/repay/record-init between, allowed programs, no CPI), the account was not healthy, health not worse, not ended healthy and premium <= max(fee,5%) unless equity < $5 (definite breaches on enclosures, under both price readings). Non-trivial = committed transactions in which a third party controlled the account; distinct by (shape, world hash).";
+const RULE_C11: &str = "per generated world (account normal / frozen / disabled-by-transfer): EXHAUSTIVE enumeration of all transaction shapes up to the stated length over the 30-symbol alphabet (incl. an end for another account that merely lists U, a trailing-byte end, and ends whose observation accounts are missing or lack the borrowed bank) {flash start naming end index 0,1,2,3,4,9 and 65536+0, 65536+1, 2^32+1 (aliases of 0 / 1 under 16- / 32-bit narrowing); end(U); end(V); big borrow (unhealthy); small borrow; big withdraw; deposit; repay_all; classic liquidate(U); bankruptcy(U); start_liquidation(U); end_liquidation(U); transfer(U); close(U); start/end/borrow via CPI; compute-budget} plus random longer shapes, each executed atomically. Oracle: per executed instruction — a start that set the flag named a later end(U) of this program, was top-level, on an unflagged account, not nested; liquidation/bankruptcy/start_liquidation never succeed on a flagged account; at commit — no flash-loan flag survives, and if an action inside left the account initially unhealthy (reference model) then an end(U) follows and the account is not unhealthy at commit. Non-trivial = committed transactions containing a borrow/withdraw that skipped the health check.";
 
 pub fn run(ctx: &Ctx, c10: bool) -> Report {
     let worlds: u32 = if c10 { ctx.tier.pick(4, 10) } else { ctx.tier.pick(6, 12) };
